@@ -267,6 +267,9 @@ func init() {
 			E7OnceBeforeUse(c, r, c20APIRoots(c))
 			E7PoolReinit(c, r)
 			E7MapOrder(c, r)
+			E1SharedFont(c, r)
+			E1FontLibraryCalls(c, r)
+			E1SharedArgs(c, r)
 		},
 	})
 }
